@@ -38,7 +38,20 @@ nodef = prop == "C19"
 reverse = prop in ("C15", "C16")     # compile-time properties: the demo compiles WITH the change and is rejected without it
 dcmd = ["cargo", "test", "--offline", "--test", "seed_demo"] + (["--release"] if release else []) + (["--no-default-features"] if nodef else [])
 d1 = run(dcmd)
+if not reverse and d1.returncode == 0:
+    # the demonstration may need a particular profile / feature set / tool (stated in meta.txt): try them in turn
+    base = ["cargo", "test", "--offline", "--test", "seed_demo"]
+    for alt in (base + ["--release"], base + ["--no-default-features"], ["cargo", "+nightly", "miri", "test", "--offline", "--test", "seed_demo"]):
+        if alt == dcmd:
+            continue
+        if "miri" in alt and "miri" not in mtxt.lower():
+            continue
+        d1b = run(alt)
+        if d1b.returncode != 0:
+            d1, dcmd = d1b, alt
+            break
 meta["demo_with_change"] = {"exit": d1.returncode, "passed_failed": passed(d1.stdout)}
+meta["demo_command"] = " ".join(dcmd)
 run(["patch", "-p1", "-R", "-s", "-i", os.path.join(src, "patch.diff")])
 d2 = run(dcmd)
 meta["demo_without_change"] = {"exit": d2.returncode, "passed_failed": passed(d2.stdout)}
@@ -68,6 +81,10 @@ if reverse:
     meta["demo_with_change"]["compiles"] = compiles_with
     meta["demo_without_change"]["rejected_by_compiler"] = rejected_without
     valid = meta["suite_with_change"]["exit"] == 0 and compiles_with and rejected_without
+    if not valid and "could not compile" not in d1.stderr and "could not compile" not in d2.stderr:
+        # a run-time formulation (trait-probe test that compiles on both trees): fails with the change, passes without it
+        valid = meta["suite_with_change"]["exit"] == 0 and d1.returncode != 0 and d2.returncode == 0
+        meta["demo_direction"] = "fails with the change, passes without it (compiles on both trees)"
     meta["compiler_errors_without_change"] = sorted(set(re.findall(r"error\[(E\d+)\]", d2.stderr)))
 else:
     valid = meta["suite_with_change"]["exit"] == 0 and d1.returncode != 0 and d2.returncode == 0
